@@ -21,6 +21,12 @@
   wires — `group_one_qubit_gates` included: it replaces every maximal run of adjacent one-qubit gates of a wire by one
   wrapper holding the run's classes in the order the code collects them, and changes nothing else
   (`group_is_fuse_of_runs_on_wires`).
+  Added by the C18 deepening: `validate()` passes on every such circuit (§3); a topological order restricted to a register IS the
+  wire (§6); `GroupHyp` — the hypothesis of the fuse refinement — is an invariant of the whole edit API for graphiq-constructed
+  operation arguments, so the refinement holds after any history (§9), also with the classical threading of every operation
+  (`group_is_fuse_of_runs_on_wired_wires`), as do flatMap-unwrap / filter for `unwrap_nodes` / `remove_identity`, giving a closed-form
+  interpreter for rewrite histories (`rewrite_history_on_wired_wires`); `find_incompatible_edges` is characterised exactly, complete
+  for cycles and conservative; insertions on input / output edges and on reported-compatible pairs are well-formed calls (§9–§10).
 -/
 import GraphiqModel.Proofs.PrepOrder
 import GraphiqModel.Proofs.Topo
